@@ -42,6 +42,7 @@ fn many_rows_cmd(r: &mut Rng, binary_stmt: Option<u32>) -> Cmd {
         pull_params: None,
         pull_skip: 0,
         mixed_rows: 0,
+        ret_panic: false,
     };
     match binary_stmt {
         Some(id) => Cmd {
@@ -118,6 +119,7 @@ fn gen_counts_plan(r: &mut Rng) -> Plan {
                     pull_params: None,
                     pull_skip: 0,
                     mixed_rows: 0,
+                    ret_panic: false,
                 }),
             });
         }
@@ -148,6 +150,7 @@ fn gen_counts_plan(r: &mut Rng) -> Plan {
                     pull_params: None,
                     pull_skip: 0,
                     mixed_rows: 0,
+                    ret_panic: false,
                 }),
             });
         }
@@ -290,6 +293,7 @@ pub fn gen_sink(r: &mut Rng, tier: Tier, job: u64) -> Plan {
             if let Act::Program(p) = &mut cmds[i].act {
                 let at = r.below(p.units.len() as u64 + 2) as u32;
                 p.ret_err = Some((at, 0xE200_0000 | r.below(1 << 20) as u32));
+                p.ret_panic = r.chance(1, 3);
             }
         }
     }
